@@ -6,6 +6,9 @@ pub mod c02;
 pub mod c03;
 pub mod c04;
 pub mod c06;
+pub mod c07;
+pub mod c08;
+pub mod c09;
 pub mod c10;
 pub mod c11;
 pub mod c15;
@@ -24,6 +27,9 @@ pub fn all() -> Vec<Monitor> {
         Monitor { meta: &c03::META, run: c03::run, replay: c03::replay },
         Monitor { meta: &c04::META, run: c04::run, replay: c04::replay },
         Monitor { meta: &c06::META, run: c06::run, replay: c06::replay },
+        Monitor { meta: &c07::META, run: c07::run, replay: c07::replay },
+        Monitor { meta: &c08::META, run: c08::run, replay: c08::replay },
+        Monitor { meta: &c09::META, run: c09::run, replay: c09::replay },
         Monitor { meta: &c10::META, run: c10::run, replay: c10::replay },
         Monitor { meta: &c11::META, run: c11::run, replay: c11::replay },
         Monitor { meta: &c15::META, run: c15::run, replay: c15::replay },
